@@ -290,8 +290,8 @@ func (fv *FuncVerifier) nilMapAxiom(heapName string, h Term) {
 	fv.u.decls = append(fv.u.decls, fmt.Sprintf("(assert (and (= (%s (select %s 0)) ((as const %s) false)) (= (%s (select %s 0)) 0)))",
 		cs.Fields[0].Accessor, h.S, cs.Fields[0].Sort.Name, cs.Fields[2].Accessor, h.S))
 	// len(m) of every map in this heap is a cardinality: non-negative, zero exactly for the empty key set
-	fv.u.decls = append(fv.u.decls, fmt.Sprintf("(assert (forall ((r!m Int)) (! (and (>= (%s (select %s r!m)) 0) (= (= (%s (select %s r!m)) 0) (forall ((k!m %s)) (not (select (%s (select %s r!m)) k!m))))) :pattern ((select %s r!m)))))",
-		cs.Fields[2].Accessor, h.S, cs.Fields[2].Accessor, h.S, cs.Key.Name, cs.Fields[0].Accessor, h.S, h.S))
+	fv.u.decls = append(fv.u.decls, fmt.Sprintf("(assert (forall ((r!m Int)) (! (and (>= (%s (select %s r!m)) 0) (<= (%s (select %s r!m)) 72057594037927936) (= (= (%s (select %s r!m)) 0) (forall ((k!m %s)) (not (select (%s (select %s r!m)) k!m))))) :pattern ((select %s r!m)))))",
+		cs.Fields[2].Accessor, h.S, cs.Fields[2].Accessor, h.S, cs.Fields[2].Accessor, h.S, cs.Key.Name, cs.Fields[0].Accessor, h.S, h.S))
 }
 
 func (fv *FuncVerifier) setHeap(st *State, ref *Sort, h Term) {
